@@ -141,11 +141,11 @@ for _nm, _chs, _exc in (('two-channels', {'list': [DCH2, DCH2]}, None), ('a-non-
         self_fields={'physical_file': {'cls': 'DLISFile', 'fields': {'_eflr_sets': {'cls': 'EFLRSetsDict', 'fields': {}}}},
                      '_eflr_sets': {'cls': 'EFLRSetsDict', 'fields': {}}, 'default_origin_reference': 'int?'},
         params=dict(ADD_FR, channels=_chs), returns={'cls': 'FrameItem', 'fields': {}},
-        ghost={'registry_touched': ('bool', 'False')},
-        stubs={'get_or_make_set': dict(returns='opq:eflrset', ghost_set={'registry_touched': 'True'}), 'try_add_set': dict(returns='bool', ghost_set={'registry_touched': 'True'})},
-        raises=({_exc: 'True'} if _exc else {}), may_raise=['AnyException'],
-        exc_ensures=([('rejected-before-any-set-was-created-or-registered', 'not registry_touched')] if _exc else []),
-        ensures=[])
+        stubs={'get_or_make_set': dict(returns='opq:eflrset'), 'try_add_set': dict(returns='bool')},
+        # C12: an invalid channel list is rejected (by the pre-checks or by the item constructor - either is a rejection before the
+        # item is registered, see EFLRItem.__init__); a valid one is not rejected by the pre-checks
+        raises={}, may_raise=['AnyException', 'TypeError', 'ValueError'],
+        ensures=([('invalid-channel-list-never-accepted', 'False')] if _exc else []))
 
 # ---------------------------------------------------------------------------------------------- DLISFile.write wiring (C01)
 from contracts.c_writer import SUL_FIELDS, DW_FIELDS, SUL_TOO_LONG
